@@ -246,6 +246,35 @@ def same_value(dbg_text, prog_text, t):
     return prog_text == format_number(x, CT[t]) + ' ', v
 
 
+def off_end_probe(o):
+    """a program without END runs off its code: no call frame is left; the debugger must still answer (a value where the
+    expression needs no frame, an evaluation error otherwise) and must not raise"""
+    src = 'CONST kc% = 4\nDIM SHARED sh AS LONG\nDIM arr%(3)\nsh = 70000: x% = 5: arr%(1) = 9\nPRINT x%\n'
+    st = real.try_compile(src, o, True)
+    problems = []
+    if st[0] != 'ok':
+        return [('off-end-program-rejected', str(st[1])[:80])]
+    mod = real.QModule.parse(st[2])
+    sink = io.StringIO()
+    with contextlib.redirect_stdout(sink):
+        m = real.QvmMachine(mod, impl=real.RecImpl())
+        d = Cmd(m, mod)
+        d.onecmd('autostatus off')
+        d.onecmd('continue')
+    for e in ['x%', 'sh', 'arr%(1)', 'kc% * 2', '1 + 2', 'nosuch%', 'x% + sh']:
+        b = io.StringIO()
+        try:
+            with contextlib.redirect_stdout(b):
+                d.onecmd('print ' + e)
+        except Exception as ex:  # noqa: BLE001
+            tb = traceback.extract_tb(ex.__traceback__)
+            problems.append(('debugger-raised', type(ex).__name__, f'{tb[-1].name}:{tb[-1].lineno}', f'print {e} after the program ran off its end'))
+            continue
+        if not b.getvalue().strip():
+            problems.append(('no-answer-after-finish', e))
+    return problems
+
+
 def task(t):
     return real.big_frame(lambda: _task(t))
 
@@ -355,6 +384,11 @@ def run(chk):
     res = real.pmap(task, tasks)
     nprobe = nextra = nerr = nstops = nprog = 0
     hits = {}
+    for o_ in (0, 1, 2):
+        for pr in off_end_probe(o_):
+            sig = 'C13 ' + pr[0] + (' ' + pr[1] + ' in ' + pr[2] if pr[0] == 'debugger-raised' else '')
+            hits[sig] = hits.get(sig, 0) + 1
+            chk.finding(sig, str(pr), {'kind': 'off-end', 'O': o_})
     outcomes = {}
     for t, out in zip(tasks, res):
         if out['status'] != 'ok':
